@@ -315,18 +315,18 @@ def run(ctx):
             'yaclib::FairThreadPool::Loop', 'yaclib::FairThreadPool::HardStop')]
         if len(deq) != 5:
             ctx.broken('dequeue sites missing in %s: %s' % (cfg, sorted(f.qn for f in deq)))
-        lib_exec.check_dequeue(ctx, fb, rl, deq)
-        check_core_routing(ctx, fb, rr)
-        check_core_drop(ctx, fb, rd)
+        ctx.guard(lambda: lib_exec.check_dequeue(ctx, fb, rl, deq))
+        ctx.guard(lambda: check_core_routing(ctx, fb, rr))
+        ctx.guard(lambda: check_core_drop(ctx, fb, rd))
         if check_drop_stop(ctx, fb, rd) < (3 if cfg != 'K17' else 2):
             ctx.broken('Drop() of PromiseCore / PromiseType / ReadyCore not found in %s' % cfg)
         if cfg != 'K17':
             if check_awaiters(ctx, fb, ra) < 3:
                 ctx.broken('executor-naming awaiters not found')
-        check_writers(ctx, fb, rw)
+        ctx.guard(lambda: check_writers(ctx, fb, rw))
         if cfg != 'K17':
             if check_resume_executor(ctx, fb, rre) < 2:
                 ctx.broken('PromiseType::Impl not instantiated in %s' % cfg)
         from rules import c12
-        c12.check_start(ctx, fb, rst)
-        lib_head.check(ctx, fb, cfg, rh, rh2)
+        ctx.guard(lambda: c12.check_start(ctx, fb, rst))
+        ctx.guard(lambda: lib_head.check(ctx, fb, cfg, rh, rh2))
